@@ -298,6 +298,28 @@ def int_operator_trait(exe, path, callee, args, dst_ty):
     return [('ret', path, exe.binop(path, None, op, a, b, ty, ty))]
 
 
+@contract(r'core::str::<impl str>::(r?split_once)::<char>$')
+def str_split_once(exe, path, callee, args, dst_ty):
+    s = strval(exe, path, args[0])
+    ch = z3.simplify(args[1]) if isinstance(args[1], z3.ExprRef) else args[1]
+    if not (isinstance(s, z3.ExprRef) and z3.is_string(s)) or not z3.is_int_value(ch):
+        raise MirUnsupported('split_once on %r / %r' % (s, ch))
+    sep = z3.StringVal(chr(ch.as_long()))
+    n = path.new_fid()
+    a, b = z3.String('split_a_%d' % n), z3.String('split_b_%d' % n)
+    # x = a ++ sep ++ b with the separator absent from b (rsplit) / from a (split): concat + contains is what string solvers handle well
+    cond = z3.And(s == z3.Concat(a, sep, b), z3.Not(z3.Contains(b if 'rsplit' in callee else a, sep)))
+    outs = []
+    yes = path.clone()
+    if exe.feasible(yes, [cond]):
+        yes.pc.append(cond)
+        outs.append(('ret', yes, some(Agg('tuple', None, {0: a, 1: b}))))
+    if exe.feasible(path, [z3.Not(z3.Contains(s, sep))]):
+        path.pc.append(z3.Not(z3.Contains(s, sep)))
+        outs.append(('ret', path, NONE))
+    return outs
+
+
 @contract(r'^(std::option::)?Option::<.*>::map_or::<')
 def option_map_or(exe, path, callee, args, dst_ty):
     v, default, f = args
